@@ -440,6 +440,9 @@ package list
 //@ func (*AclState).applyReadKeyChange
 //@   requires st != nil && record != nil
 //@   assumes st.contentValidator != nil && st.keyStore != nil
+//@   trusted
+//@   modifies fields AclState.readKeyChanges
+//@   modifies kinds map:map[string]list.AclKeys map:map[string]list.Invite string
 //@ func iface list.ContentValidator.ValidateReadKeyChange
 //@   modifies nothing
 
@@ -490,3 +493,77 @@ package list
 //@   requires st != nil && record != nil
 //@   ensures [extends_head]     err == nil ==> old(record.PrevId) == old(st.lastRecordId)
 //@   ensures [becomes_head]     err == nil ==> st.lastRecordId == record.Id
+
+// C04: ownership transfer writes exactly two entries: the author (old owner) gets the level named in the
+// record, the named new owner becomes Owner; nobody else's permission changes; a rejected record
+// changes nothing.  (That the author IS the owner, the new owner a member and the old owner's new level
+// not Owner is the validator's postcondition.)
+//@ func (*AclState).updatePermissions
+//@   requires st != nil && record != nil
+//@   assumes st.accountStates != nil
+//@   modifies kinds map:map[string]list.AccountState
+//@   ensures [sets_exactly_this_entry] permOfKey(st, identityKey) == permissions && (forall k string :: k != identityKey ==> permOfKey(st, k) == old(permOfKey(st, k)))
+//@ func (*AclState).applyOwnershipChange
+//@   requires stwf(st) && ch != nil && record != nil && record.Identity != nil
+//@   ensures [old_owner_demoted_new_owner_promoted] err == nil ==> permOfKey(st, mapKeyFromPubKey(st.keyStore.PubKeyFromProto(ch.NewOwnerIdentity))) == 1 && (mapKeyFromPubKey(record.Identity) != mapKeyFromPubKey(st.keyStore.PubKeyFromProto(ch.NewOwnerIdentity)) ==> permOfKey(st, mapKeyFromPubKey(record.Identity)) == ch.OldOwnerPermissions)
+//@   ensures [nobody_else_changes] err == nil ==> (forall k string :: k != mapKeyFromPubKey(record.Identity) && k != mapKeyFromPubKey(st.keyStore.PubKeyFromProto(ch.NewOwnerIdentity)) ==> permOfKey(st, k) == old(permOfKey(st, k)))
+//@   ensures [rejected_unchanged] err != nil ==> (forall k string :: permOfKey(st, k) == old(permOfKey(st, k)))
+
+// C04: adding accounts and removing accounts change only the listed accounts; a removed account ends
+// with no permission; a rejected record (validator error) changes nothing.
+//@ func (*AclState).unpackAllKeys
+//@   trusted
+//@   modifies kinds map:map[string]list.AclKeys
+//@ func iface crypto.PubKey.Equals
+//@   pure
+//@ func (*AclState).applyAccountsAdd
+//@   requires stwf(st) && ch != nil && record != nil
+//@   assumes st.pubKey != nil && len(st.readKeyChanges) > 0 && (forall k int :: 0 <= k && k < len(ch.Additions) ==> ch.Additions[k] != nil)
+//@   ensures [only_listed_accounts_change] forall key string :: (forall j int :: 0 <= j && j < len(ch.Additions) ==> key != mapKeyFromPubKey(st.keyStore.PubKeyFromProto(ch.Additions[j].Identity))) ==> permOfKey(st, key) == old(permOfKey(st, key))
+//@   loop 0:
+//@     invariant -1 <= rangeindex && rangeindex < len(ch.Additions) && stwf(st) && st.pubKey != nil && len(st.readKeyChanges) > 0 && (forall k int :: 0 <= k && k < len(ch.Additions) ==> ch.Additions[k] != nil)
+//@     invariant forall key string :: (forall j int :: 0 <= j && j <= rangeindex ==> key != mapKeyFromPubKey(st.keyStore.PubKeyFromProto(ch.Additions[j].Identity))) ==> permOfKey(st, key) == old(permOfKey(st, key))
+//@ func (*AclState).applyAccountRemove
+//@   requires stwf(st) && ch != nil && record != nil
+//@   ensures [only_listed_accounts_change] forall key string :: (forall j int :: 0 <= j && j < len(ch.Identities) ==> key != mapKeyFromPubKey(st.keyStore.PubKeyFromProto(ch.Identities[j]))) ==> permOfKey(st, key) == old(permOfKey(st, key))
+//@   ensures [removed_have_no_permission] result == nil ==> (forall j int :: 0 <= j && j < len(ch.Identities) ==> permOfKey(st, mapKeyFromPubKey(st.keyStore.PubKeyFromProto(ch.Identities[j]))) == 0)
+//@   loop 0:
+//@     invariant -1 <= rangeindex && rangeindex < len(ch.Identities) && stwf(st)
+//@     invariant forall key string :: (forall j int :: 0 <= j && j <= rangeindex ==> key != mapKeyFromPubKey(st.keyStore.PubKeyFromProto(ch.Identities[j]))) ==> permOfKey(st, key) == old(permOfKey(st, key))
+//@     invariant forall j int :: 0 <= j && j <= rangeindex ==> permOfKey(st, mapKeyFromPubKey(st.keyStore.PubKeyFromProto(ch.Identities[j]))) == 0
+
+// C04: accepting a join request and joining through an open invite give exactly the named account the
+// named level (for an invite join without an explicit level: the invite's level) and change nobody else.
+//@ func iface list.ContentValidator.ValidateInviteJoin
+//@   modifies nothing
+//@ func (AclPermissions).NoPermissions
+//@   modifies nothing
+//@   ensures result <==> p == 0
+//@ func (*AclState).applyRequestAccept
+//@   requires stwf(st) && ch != nil && record != nil
+//@   assumes st.pubKey != nil
+//@   ensures [only_accepted_account] forall key string :: key != mapKeyFromPubKey(st.keyStore.PubKeyFromProto(ch.Identity)) ==> permOfKey(st, key) == old(permOfKey(st, key))
+//@   ensures [gets_named_level] result == nil ==> permOfKey(st, mapKeyFromPubKey(st.keyStore.PubKeyFromProto(ch.Identity))) == ch.Permissions
+//@ func (*AclState).applyInviteJoinWithoutApprove
+//@   requires stwf(st) && ch != nil && record != nil
+//@   assumes st.pubKey != nil && len(st.readKeyChanges) > 0 && (forall k string :: (k in st.requestRecords) ==> st.requestRecords[k].RequestIdentity != nil)
+//@   ensures [only_joining_account] forall key string :: key != mapKeyFromPubKey(st.keyStore.PubKeyFromProto(ch.Identity)) ==> permOfKey(st, key) == old(permOfKey(st, key))
+//@   ensures [gets_invite_level] result == nil ==> permOfKey(st, mapKeyFromPubKey(st.keyStore.PubKeyFromProto(ch.Identity))) == ite(ch.Permissions == 0, old(ite(ch.InviteRecordId in st.invites, st.invites[ch.InviteRecordId].Permissions, 0)), ch.Permissions)
+//@   loop 0:
+//@     invariant stwf(st) && st.pubKey != nil
+//@     invariant forall key string :: key != mapKeyFromPubKey(st.keyStore.PubKeyFromProto(ch.Identity)) ==> permOfKey(st, key) == old(permOfKey(st, key))
+//@     invariant permOfKey(st, mapKeyFromPubKey(st.keyStore.PubKeyFromProto(ch.Identity))) == ite(ch.Permissions == 0, old(ite(ch.InviteRecordId in st.invites, st.invites[ch.InviteRecordId].Permissions, 0)), ch.Permissions)
+
+// C03: rebuild from storage accepts a scanned record list only if it is the contiguous chain from the
+// root to the head; records are served to peers as copies of the stored raw bytes under the stored id.
+//@ func isContiguousChain
+//@   modifies nothing
+//@   assumes forall k int :: 0 <= k && k < len(records) ==> records[k] != nil
+//@   ensures [exactly_the_chain] result <==> (len(records) > 0 && records[0].Id == rootId && records[len(records) - 1].Id == head && (forall i int :: 1 <= i && i < len(records) ==> records[i].PrevId == records[i - 1].Id))
+//@   loop 0:
+//@     invariant 1 <= i && i <= len(records)
+//@     invariant forall j int :: 1 <= j && j < i ==> records[j].PrevId == records[j - 1].Id
+//@ func (*aclList).RecordsAfter$1
+//@   ensures [one_record_per_stored_record] result0 && result1 == nil && len(records) == old(len(records)) + 1
+//@   ensures [stored_id_and_bytes] records[len(records) - 1] != nil && records[len(records) - 1].Id == record.Id && len(records[len(records) - 1].Payload) == len(record.RawRecord) && (forall k int :: 0 <= k && k < len(record.RawRecord) ==> records[len(records) - 1].Payload[k] == record.RawRecord[k])
+//@   ensures [bytes_are_a_copy] len(record.RawRecord) == 0 || fresh(records[len(records) - 1].Payload)
